@@ -37,9 +37,16 @@ MANIFEST = dict(
          "F19/F20; for Hsu, ET26, DaChen26 and the Pinyin variants the full statement is refuted and the known-finding F21 "
          "readings are excluded - and proved to be exactly the readings that NO key list enters: an invariant of the "
          "editor's way of driving the layout + kernel evaluation over all toneless syllables x keys, resp. over all Pinyin "
-         "table-row combinations). ASCII round trip over the 95 printable "
-         "characters for the seven non-remapping keyboards. Tie: translator + exhaustive state-space correspondence through "
-         "clone() for the seven finite layouts and the keyboards, table-string + random correspondence for Pinyin.",
+         "table-row combinations). The readings of data/mini.src (built-in fallback dictionary) are proved to be a subset, so the same "
+         "theorems cover them. ASCII round trip over the 95 printable characters for the seven non-remapping keyboards. "
+         "Inside the editor (stage B, over the validated editor model of C06, any environment whose layout is one of the "
+         "layout models): one key in EnteringSyllable leaves the layout state well-formed and changes the pre-edit buffer only "
+         "by inserting exactly the syllable the layout handed over (read() after Commit, or the Fuzzy payload), well-formed "
+         "and non-empty; this is a one-step theorem, its lift over whole editor sessions is by correspondence (typed "
+         "through a real Editor in the harness). Tie: translator + exhaustive state-space correspondence through clone() "
+         "for the seven finite layouts and the keyboards - theorem correspondence_lift (generic bisimulation lemma) turns "
+         "'every visited transition agrees, visited set closed' into 'every operation list of any length agrees, hence is "
+         "sound' - and table-string + random correspondence for Pinyin.",
     note="Trusted: Lean kernel (axioms propext, Classical.choice, Quot.sound only), tools/extract.py, the harness and the "
          "compiled model driver. The context rules of the 26-key layouts and Pinyin are hand-transcribed and tied by "
          "correspondence. Pinyin panic-freedom is by correspondence only.",
